@@ -73,9 +73,36 @@ def all_v_files() -> list[str]:
     return sorted(res)
 
 
-def forbidden_scan() -> list[str]:
+_REQ = re.compile(r'From\s+PV\s+Require\s+(?:Import\s+|Export\s+)?(.*?)\.(?=\s|$)', re.S)
+_REQ2 = re.compile(r'Require\s+(?:Import\s+|Export\s+)?((?:PV\.[A-Za-z0-9_.\']+\s*)+)\.(?=\s|$)')
+
+
+def closure(targets: list[str]) -> list[str]:
+    """Files (relative to coq/) that the targets depend on, transitively,
+    following `From PV Require ... A.B` and `Require ... PV.A.B`."""
+    seen: list[str] = []
+    todo = [t if t.endswith('.v') else t + '.v' for t in targets]
+    while todo:
+        rel = todo.pop()
+        if rel in seen or not os.path.exists(os.path.join(COQ, rel)):
+            continue
+        seen.append(rel)
+        text = _strip_comments(open(os.path.join(COQ, rel)).read())
+        mods = []
+        for m in _REQ.finditer(text):
+            mods += m.group(1).split()
+        for m in _REQ2.finditer(text):
+            mods += [x[3:] for x in m.group(1).split()]
+        for mod in mods:
+            mod = mod.strip()
+            if re.fullmatch(r"[A-Za-z0-9_.']+", mod):
+                todo.append('theories/' + mod.replace('.', '/') + '.v')
+    return sorted(seen)
+
+
+def forbidden_scan(targets: list[str] | None = None) -> list[str]:
     hits = []
-    for rel in all_v_files():
+    for rel in (closure(targets) if targets else all_v_files()):
         text = _strip_comments(open(os.path.join(COQ, rel)).read())
         depth = 0
         for ln, line in enumerate(text.split('\n'), 1):
